@@ -25,8 +25,8 @@ func normalizeTaxIdentity(tID *tax.Identity) {
 	}
 	// also allow for usage of "GR" which may be used in the tax code
 	// by accident.
-	tax.NormalizeIdentity(tID, l10n.GR)
 	tID.Country = "EL" // always override for greece
+	tax.NormalizeIdentity(tID, l10n.GR)
 }
 
 // validateTaxIdentity checks to ensure the tax code looks okay.
